@@ -58,6 +58,7 @@ type env struct {
 	own     [2]tok.Token   // model token ids 10,11 ; Base = the voucher denom of channel t
 	users   []lib.Key
 	relayer sdk.AccAddress
+	blocked sdk.AccAddress // an address the bank refuses to credit
 	cCaller, cRevert common.Address
 	accts   []int64 // model ids of derived memo-call senders that have an account
 	pxAddr  string
@@ -151,6 +152,7 @@ func (e *env) setup(seed int64) {
 		tok.VoucherDenom(c, ctx, port, e.chans[t], fmt.Sprintf("uo%d", t)) // users hold this voucher: it has been received before, so its trace is known
 	}
 	e.relayer = lib.EthKey(seed, "relayer", 0).Acc()
+	e.blocked = authtypes.NewModuleAddress(authtypes.FeeCollectorName)
 	e.pxAddr, _ = bech32.ConvertAndEncode("px", make([]byte, 20))
 	for u := 0; u < nUsers; u++ {
 		k := lib.EthKey(seed, "ibc-user", u)
@@ -187,6 +189,7 @@ func (e *env) setup(seed int64) {
 	c.InstallCode(ctx, e.cRevert, (&lib.Asm{}).SStore(1, 9).Revert().B)
 	e.local[e.cCaller], e.local[e.cRevert] = "contract", "contract"
 	// derived senders (remote channel 7, sender 0) and (8, 1) have been sent a coin before => they have an account
+	c.Mint(derived(7, 0).Bytes(), sdk.NewCoin(fxtypes.DefaultDenom, sdkmath.NewInt(10))) // can pay the value of three memo calls
 	for _, p := range [][2]int{{7, 0}, {8, 1}} {
 		c.EnsureAccount(ctx, derived(p[0], p[1]).Bytes())
 		e.accts = append(e.accts, 1000+100*int64(p[0])+int64(p[1]))
@@ -282,6 +285,19 @@ func (e *env) corpus() [][]opT {
 			{Kind: "toggle", Denom: "alias0"},
 			{Kind: "recv", Chan: 0, Src: 7, Sender: 0, RawDenom: "baseback0", Denom: "base0", Amt: 5000, Receiver: "hex", User: 2, Memo: "none"},
 			{Kind: "timeout", Chan: 0, Seq: 1}, {Kind: "ack", Chan: 1, Seq: 11, OK: false}, {Kind: "timeoutraw", Chan: 0, Seq: 1}},
+		// blocked receivers; memo calls with value (derived sender funded with 10: three calls of 3, the fourth is refused; a derived
+		// sender without funds is refused); timeout after the channel was closed
+		{{Kind: "recv", Chan: 0, Src: 7, Sender: 0, RawDenom: "uo0", Denom: "own10", Amt: 5, Receiver: "blockedhex", User: 0, Memo: "none"},
+			{Kind: "recv", Chan: 0, Src: 7, Sender: 0, RawDenom: "fxback", Denom: "fx", Amt: 5, Receiver: "blockedbech32", User: 0, Memo: "none"},
+			{Kind: "recv", Chan: 0, Src: 7, Sender: 0, RawDenom: "baseback0", Denom: "base0", Amt: 5, Receiver: "blockedhex", User: 0, Memo: "text"},
+			{Kind: "recv", Chan: 0, Src: 7, Sender: 0, RawDenom: "uo0", Denom: "own10", Amt: 5, Receiver: "hex", User: 1, Memo: "callvalue"},
+			{Kind: "recv", Chan: 0, Src: 7, Sender: 0, RawDenom: "fxback", Denom: "fx", Amt: 5, Receiver: "hex", User: 1, Memo: "callvalue"},
+			{Kind: "recv", Chan: 1, Src: 7, Sender: 0, RawDenom: "uo1", Denom: "own11", Amt: 5, Receiver: "hex", User: 1, Memo: "callvalue"},
+			{Kind: "recv", Chan: 0, Src: 7, Sender: 0, RawDenom: "uo0", Denom: "own10", Amt: 5, Receiver: "hex", User: 1, Memo: "callvalue"},
+			{Kind: "recv", Chan: 1, Src: 8, Sender: 1, RawDenom: "uo1", Denom: "own11", Amt: 5, Receiver: "hex", User: 1, Memo: "callvalue"},
+			{Kind: "sendevm", Chan: 0, User: 2, Denom: "alias0", Amt: 31}, {Kind: "sendplain", Chan: 0, User: 2, Denom: "base0", Amt: 12},
+			{Kind: "timeout", Chan: 0, Seq: 1, AckKind: "onclose"}, {Kind: "timeout", Chan: 0, Seq: 2, AckKind: "onclose"},
+			{Kind: "timeout", Chan: 0, Seq: 1, AckKind: "onclose"}, {Kind: "timeoutraw", Chan: 0, Seq: 1}},
 		// acknowledgement kinds: error acknowledgement with empty text (refund as ERC-20, record removed), result with payload 0
 		{{Kind: "sendevm", Chan: 0, User: 1, Denom: "alias0", Amt: 77}, {Kind: "ack", Chan: 0, Seq: 1, OK: false, AckKind: "errempty"},
 			{Kind: "sendevm", Chan: 0, User: 1, Denom: "alias0", Amt: 33}, {Kind: "ack", Chan: 0, Seq: 2, OK: true, AckKind: "result0"},
@@ -378,8 +394,8 @@ func (e *env) gen(avoidKnown bool) []opT {
 			default:
 				o.RawDenom, o.Denom = "fxback", "fx"
 			}
-			o.Receiver = []string{"hex", "hex", "hex", "bech32", "bad"}[r.Intn(5)]
-			o.Memo = []string{"none", "none", "text", "bad", "call", "call", "callrevert"}[r.Intn(7)]
+			o.Receiver = []string{"hex", "hex", "hex", "hex", "bech32", "bad", "blockedhex", "blockedbech32"}[r.Intn(8)]
+			o.Memo = []string{"none", "none", "text", "bad", "call", "call", "callrevert", "callvalue"}[r.Intn(8)]
 			if r.Chance(5) {
 				o.Amt = 0
 			}
@@ -396,6 +412,13 @@ func (e *env) gen(avoidKnown bool) []opT {
 			f := inflight[j]
 			inflight = append(inflight[:j], inflight[j+1:]...)
 			completed = append(completed, f)
+			// governance switches the pair / the erc20 module off between the send and its acknowledgement or timeout
+			switched := ""
+			if f.evm && r.Chance(25) {
+				switched = []string{fmt.Sprintf("alias%d", f.ch), "erc20"}[r.Intn(2)]
+				ops = append(ops, opT{Kind: "toggle", Denom: switched})
+			}
+			defer0 := len(ops)
 			switch r.Intn(3) {
 			case 0:
 				if avoidKnown && f.evm {
@@ -414,7 +437,14 @@ func (e *env) gen(avoidKnown bool) []opT {
 				}
 				ops = append(ops, a)
 			default:
-				ops = append(ops, opT{Kind: "timeout", Chan: f.ch, Seq: f.seq})
+				t := opT{Kind: "timeout", Chan: f.ch, Seq: f.seq}
+				if r.Chance(35) {
+					t.AckKind = "onclose"
+				}
+				ops = append(ops, t)
+			}
+			if switched != "" { // switched on again; the refused delivery is retried
+				ops = append(ops, opT{Kind: "toggle", Denom: switched}, ops[defer0])
 			}
 			if r.Chance(30) { // duplicated delivery through the core
 				ops = append(ops, opT{Kind: []string{"ack", "timeout"}[r.Intn(2)], Chan: f.ch, Seq: f.seq, OK: r.Chance(50)})
@@ -493,6 +523,7 @@ func (e *env) watch() []wkey {
 		ks = append(ks, wkey{-4, 1, t}, wkey{-3, 1, t})
 	}
 	ks = append(ks, wkey{-10, 3, 0}, wkey{-11, 3, 0})
+	ks = append(ks, wkey{1700, 3, 0}, wkey{1801, 3, 0}, wkey{60, 3, 0}) // FX of the two derived senders with accounts and of the memo callee
 	for _, t := range []int64{0, 1} { // base coins of the bridged tokens in the channel escrows
 		ks = append(ks, wkey{-10, 0, t}, wkey{-11, 0, t})
 	}
@@ -510,6 +541,12 @@ func (e *env) read(ctx sdk.Context, k wkey) *big.Int {
 	c := e.c
 	var who sdk.AccAddress
 	switch {
+	case k.h == 1700:
+		who = derived(7, 0).Bytes()
+	case k.h == 1801:
+		who = derived(8, 1).Bytes()
+	case k.h == 60:
+		who = e.cCaller.Bytes()
 	case k.h >= 0:
 		who = e.users[k.h].Acc()
 	case k.h == -4:
@@ -732,6 +769,14 @@ func (e *env) history(ops []opT) string {
 				receiver, isHex = user.Acc().String(), false
 			case "bad":
 				receiver, addrOK, isHex = "0xnothex", false, false
+			case "blockedhex": // an address the bank refuses to credit (module account)
+				receiver = common.BytesToAddress(e.blocked).Hex()
+			case "blockedbech32":
+				receiver, isHex = e.blocked.String(), false
+			}
+			recvID := int64(o.User)
+			if strings.HasPrefix(o.Receiver, "blocked") {
+				recvID = 90
 			}
 			memo, coqMemo := "", "NoMemo"
 			switch o.Memo {
@@ -740,9 +785,11 @@ func (e *env) history(ops []opT) string {
 			case "bad":
 				memo, coqMemo = tok.MemoCall(c, "0x12", nil, 0), "MemoBad"
 			case "call":
-				memo, coqMemo = tok.MemoCall(c, e.cCaller.Hex(), nil, 0), "(MemoCall false)"
+				memo, coqMemo = tok.MemoCall(c, e.cCaller.Hex(), nil, 0), "(MemoCall false 0)"
 			case "callrevert":
-				memo, coqMemo = tok.MemoCall(c, e.cRevert.Hex(), nil, 0), "(MemoCall true)"
+				memo, coqMemo = tok.MemoCall(c, e.cRevert.Hex(), nil, 0), "(MemoCall true 0)"
+			case "callvalue": // the call hands 3 units of FX to the callee: paid by the derived sender
+				memo, coqMemo = tok.MemoCall(c, e.cCaller.Hex(), nil, 3), "(MemoCall false 3)"
 			}
 			data := transfertypes.NewFungibleTokenPacketData(raw, fmt.Sprint(o.Amt), remoteSender(o.Sender), receiver, memo)
 			recvSeq++
@@ -759,6 +806,9 @@ func (e *env) history(ops []opT) string {
 				kind = 1
 			} else {
 				kind = 2
+			}
+			if ok && recvID == 90 {
+				e.fail("C19:recv:blocked-receiver-credited", "an inbound packet to an address the bank refuses to credit got a success acknowledgement", ops, i, receiver)
 			}
 			// ---- monitor: credit exactly as ERC-20 or nothing + error acknowledgement
 			if !ok {
@@ -811,7 +861,7 @@ func (e *env) history(ops []opT) string {
 				}
 			}
 			coq = fmt.Sprintf("Recv (mk_in %d %d %d %s %d %s %s %d %s)", o.Src, o.Chan, o.Sender, coqDenom(o.Denom), o.Amt,
-				lib.Bool(addrOK), lib.Bool(isHex), o.User, coqMemo)
+				lib.Bool(addrOK), lib.Bool(isHex), recvID, coqMemo)
 
 		case "ack", "timeout", "ackraw", "timeoutraw":
 			sp := sent[key(o.Chan, o.Seq)]
@@ -842,6 +892,16 @@ func (e *env) history(ops []opT) string {
 								ack = channeltypes.NewResultAcknowledgement([]byte{0})
 							}
 							return stack.OnAcknowledgementPacket(ctx, sp.pkt, ack.Acknowledgement(), e.relayer)
+						}
+						if o.AckKind == "onclose" {
+							// ibc-go TimeoutOnClose: the channel has been closed by the counterparty; same application callback
+							chn, _ := c.App.IBCKeeper.ChannelKeeper.GetChannel(ctx, port, ch)
+							chn.State = channeltypes.CLOSED
+							c.App.IBCKeeper.ChannelKeeper.SetChannel(ctx, port, ch, chn)
+							err := stack.OnTimeoutPacket(ctx, sp.pkt, e.relayer)
+							chn.State = channeltypes.OPEN // (re-opened for the rest of the history: the model has no channel state)
+							c.App.IBCKeeper.ChannelKeeper.SetChannel(ctx, port, ch, chn)
+							return err
 						}
 						return stack.OnTimeoutPacket(ctx, sp.pkt, e.relayer)
 					})
